@@ -14,7 +14,7 @@ package core
 // "endpoint skipped because its circuit is open" errors named by the property statement; finalErr tags the
 // errors built by buildFinalError.
 //@ spec func connErr(e error) bool
-//@ spec func circuitOpen(e error) bool
+//@ spec func circuitOpen(e error) bool = errorsIs(e, ErrCircuitOpen)
 //@ spec func finalErr(e error) bool
 //@ spec func uniqueNames(xs []*domain.Endpoint) bool = forall ua int, ub int :: 0 <= ua && ua < ub && ub < len(xs) ==> xs[ua].Name != xs[ub].Name
 
@@ -29,9 +29,9 @@ package core
 //@   records attempts = old(attempts) + 1
 //@   records lastAttempted = endpoint
 //@   records lastAttemptErr = err
-//@   ensures err != nil && connErr(err) ==> ghost(w).started == old(ghost(w).started)
+//@   ensures err != nil && (connErr(err) || circuitOpen(err)) ==> ghost(w).started == old(ghost(w).started)
 //@   ensures forall e *domain.Endpoint :: ghost(e).gauge == old(ghost(e).gauge)
-//@   ensures forall e *domain.Endpoint :: old(allocated(e)) ==> e.Name == old(e.Name)
+//@   ensures forall e *domain.Endpoint :: !fresh(e) ==> e.Name == old(e.Name)
 
 //@ func (h *RetryHandler) checkContextCancellation
 //@   property C02
@@ -57,9 +57,9 @@ package core
 //@   requires endpoint != nil
 //@   modifies *
 //@   ensures attempts == old(attempts) + 1 && lastAttempted == endpoint && lastAttemptErr == res
-//@   ensures res != nil && connErr(res) ==> ghost(w).started == old(ghost(w).started)
+//@   ensures res != nil && (connErr(res) || circuitOpen(res)) ==> ghost(w).started == old(ghost(w).started)
 //@   ensures forall e *domain.Endpoint :: ghost(e).gauge == old(ghost(e).gauge)
-//@   ensures forall e *domain.Endpoint :: old(allocated(e)) ==> e.Name == old(e.Name)
+//@   ensures forall e *domain.Endpoint :: !fresh(e) ==> e.Name == old(e.Name)
 
 //@ func (h *RetryHandler) updateEndpointStatus
 //@   property C03 C04
@@ -98,3 +98,28 @@ package core
 //@   ensures subset(res, availableEndpoints) && allNonNil(res)
 //@   ensures (exists k int :: 0 <= k && k < len(availableEndpoints) && availableEndpoints[k].Name == endpoint.Name) ==> len(res) == len(availableEndpoints) - 1
 //@   ensures uniqueNames(availableEndpoints) ==> uniqueNames(res) && (forall k int :: 0 <= k && k < len(res) ==> res[k].Name != endpoint.Name)
+
+//@ func (h *RetryHandler) ExecuteWithRetry
+//@   property C02 C03 C04 C19
+//@   replay core_retry_circuitopen@internal/adapter/proxy : len(endpoints)
+//@   requires h != nil && r != nil && allNonNil(endpoints) && uniqueNames(endpoints)
+//@   requires !ghost(w).started
+//@   modifies *
+//@   loop 1 invariant !ghost(w).started
+//@   loop 1 invariant 0 <= attemptCount && attemptCount <= maxRetries && maxRetries == len(endpoints)
+//@   loop 1 invariant attempts == old(attempts) + attemptCount
+//@   loop 1 invariant len(availableEndpoints) == len(endpoints) - attemptCount
+//@   loop 1 invariant subset(availableEndpoints, endpoints)
+//@   loop 1 invariant allNonNil(availableEndpoints) && (forall k int :: 0 <= k && k < len(availableEndpoints) ==> !fresh(availableEndpoints[k]))
+//@   loop 1 invariant uniqueNames(availableEndpoints)
+//@   loop 1 invariant attemptCount > 0 ==> member(lastAttempted, endpoints)
+//@   loop 1 invariant forall e *domain.Endpoint :: ghost(e).gauge == old(ghost(e).gauge)
+//@   loop 1 invariant forall e *domain.Endpoint :: !fresh(e) ==> e.Name == old(e.Name)
+//@   loop 1 invariant attemptCount > 0 ==> lastErr != nil && (connErr(lastErr) || circuitOpen(lastErr))
+//@   loop 1 decreases maxRetries - attemptCount
+//@   ensures attempts >= old(attempts) && attempts - old(attempts) <= len(endpoints)
+//@   ensures err == nil ==> attempts > old(attempts) && lastAttemptErr == nil
+//@   ensures forall e *domain.Endpoint :: ghost(e).gauge == old(ghost(e).gauge)
+//@   at call buildFinalError 1 assert attemptCount == len(endpoints) && attempts == old(attempts) + len(endpoints)
+//@   ensures attempts > old(attempts) ==> member(lastAttempted, endpoints)
+//@   at return 6 assert !circuitOpen(lastErr) || attemptCount == len(endpoints)
